@@ -51,6 +51,8 @@ def gen(rng, i, tier):
     for _ in range(rng.choice([0, 1, 2, 4])):
         ops.append(rng.choice([["attr", "title", F.rand_str(r, codec)], ["set", "CREDIT", F.rand_str(r, codec)], ["del", "ARTIST"], ["set", "SUBTITLE", None],
                                ["dupchart"], ["delchart"], ["attr", "artist", ""],
+                               ["attr", "attacks", rng.choice(["  TIME=1.5:LEN=2 : MODS=drunk\n:  TIME=3:END=4:MODS=tipsy", "TIME=1:LEN=2:MODS=a", ""])],
+                               ["attr", "displaybpm", rng.choice(["120 : 240", " 150 ", "90:180", "*"])], ["set", "GENRE", "  padded value \n"],
                                ["notes", rng.choice(["1000\n0:00", "10;0\n0000", "00\\00\n0001", "0000 // beat 1\n0000", "{tornado:1.5}0\n0000"])]]))
     return {"fmt": fmt, "data": data.hex(), "try": tr, "explicit": rng.choice([None, None, None, det, "utf-8"]), "output": rng.choice([False, False, False, True, True, "same"]),
             "backup": rng.choice([None, None, "ok", "ok", "clash_input", "clash_output"]), "ops": ops, "fs": rng.choice(["native", "mem"]), "seed": seed}
